@@ -6,13 +6,16 @@ pub mod builtins;
 pub mod lists;
 pub mod textprops;
 pub mod timing;
+pub mod insitu;
+pub mod rename;
 
 pub fn make(prop: &str, tier: Tier, seed: u64) -> Option<Box<dyn Workload>> {
     Some(match prop {
-        "C06" => Box::new(unify::C06::new(tier, seed)),
-        "C07" => Box::new(unify::C07::new(tier, seed)),
-        "C08" => Box::new(unify::C08::new(tier, seed)),
-        "C09" => Box::new(unify::C09::new(tier, seed)),
+        "C06" => Box::new(Compose { parts: vec![Box::new(unify::C06::new(tier, seed)), Box::new(insitu::InSitu::new(insitu::Prop::C06, tier, seed))] }),
+        "C07" => Box::new(Compose { parts: vec![Box::new(unify::C07::new(tier, seed)), Box::new(insitu::InSitu::new(insitu::Prop::C07, tier, seed))] }),
+        "C08" => Box::new(Compose { parts: vec![Box::new(unify::C08::new(tier, seed)), Box::new(insitu::InSitu::new(insitu::Prop::C08, tier, seed))] }),
+        "C09" => Box::new(Compose { parts: vec![Box::new(unify::C09::new(tier, seed)), Box::new(insitu::InSitu::new(insitu::Prop::C09, tier, seed))] }),
+        "C10" => Box::new(Compose { parts: vec![Box::new(rename::C10::new(tier, seed)), Box::new(insitu::InSitu::new(insitu::Prop::C10, tier, seed))] }),
         "C01" => Box::new(search::Search::new(search::Which::C01, tier, seed)),
         "C02" => Box::new(search::Search::new(search::Which::C02, tier, seed)),
         "C03" => Box::new(search::Search::new(search::Which::C03, tier, seed)),
